@@ -26,6 +26,15 @@ Lenient(r) ==
     \* would have to take (e.g. garbage `d/Manifest` next to a registered `d/Manifest.lzma`)
     \cup (IF \E x \in MfSet(r.s0) : \E y \in MfSet(r.s0) : x.p # y.p /\ x.lp = y.lp /\ (~x.ok \/ ~x.reg) /\ y.reg
           THEN {"ManifestNameCollision"} ELSE {})
+    \* ... likewise a garbage file with a Manifest name where the update adopts, creates or renames a
+    \* Manifest of that logical name (new package Manifest of a profile, adopted `Manifest.bz2` being
+    \* decompressed over a garbage `Manifest`): the rename overwrites the garbage file
+    \cup (IF \E x \in MfSet(r.s0) : ~x.ok /\ \E y \in MfSet(r.s0) \cup MfSet(r.s1) : y.ok /\ y.lp = x.lp
+          THEN {"ManifestNameCollision"} ELSE {})
+    \* one physical Manifest file under two logical names (it lies in a directory that is also reached
+    \* through a symlink): two loaded Manifests write one file, a Manifest created under one name appears
+    \* as a stray under the other.  Flag computed by the harness from realpath.
+    \cup (IF "mf_alias" \in DOMAIN r.ev /\ r.ev.mf_alias THEN {"AliasedManifest"} ELSE {})
 
 C03(r) ==
     LET s == r.s1  sub == r.ev.sub  acc == Accepted(s, sub)
